@@ -200,6 +200,29 @@ theorem draw_history_quiet (m : Nat) : ∀ op ∈ Draw.history m, NoSettingChang
   simp only [Draw.history, List.mem_cons, List.mem_replicate] at hop
   rcases hop with rfl | rfl | ⟨_, rfl⟩ <;> simp [NoSettingChange]
 
+/-- A setter called with a value EQUAL to the current one changes nothing at all — the state (cache,
+    request log, settings) is the same state, so such calls neither start a new stretch nor cost a
+    render: `render_calls_in_stretch` applies across them (drop them from the history). -/
+theorem set_equal_unchanged (R : Renderable ρ O) (s : St ρ O) :
+    (∀ d, d = s.dur → (step R s (.setDuration d)).2 = .ok → (step R s (.setDuration d)).1 = s) ∧
+    (∀ a, convertArgs a = .ok s.args → (step R s (.setArgs a)).2 = .ok → (step R s (.setArgs a)).1 = s) ∧
+    (∀ z, z = s.size → s.padding.paddedSize s.size = .ok s.paddedSize →
+      (step R s (.setSize z)).2 = .ok → (step R s (.setSize z)).1 = s) := by
+  refine ⟨?_, ?_, ?_⟩
+  · intro d hd h
+    subst hd
+    cases s with
+    | mk count rFrame term rstate closed pubLoop cached padding paddedSize args size dur frameOffset whence frameCount definite loop frameNo cache phase calls =>
+      simp only [step, setDurationOp] at h ⊢
+      cases closed <;> cases dur <;> simp_all
+      split <;> simp_all
+  · intro a ha h
+    simp only [step, setArgsOp, ha] at h ⊢
+    split <;> rfl
+  · intro z hz hp h
+    subst hz
+    simp only [step, setSizeOp, hp] at h ⊢
+    split <;> rfl
 end render_iterator
 
 section image_iterator
